@@ -18,7 +18,8 @@ PathShapes == {"root", "pyro_noslash", "index", "one_seg", "obj_trailing", "call
 \* the object name relative to the registered name http.echo: itself; with a suffix / prefix; in another case; another
 \* registered name under the default pattern; a registered name outside the default pattern; a name nobody registered
 NameClasses == {"exact", "suffix", "prefix", "case", "other_exposed", "unexposed_registered", "unknown"}
-MemberClasses == {"method", "method_raises", "attribute", "meta", "unknown", "private"}
+\* method_slow: a method that takes longer than the gateway's communication timeout (the timeout is configured for these requests)
+MemberClasses == {"method", "method_raises", "attribute", "meta", "unknown", "private", "method_slow"}
 KeyCfgs == {"none", "set"}
 Presented == {"absent", "wrong", "right"}
 \* default: http\.   anchored: http\.echo$   empty: no pattern configured (everything is exposed)
@@ -64,6 +65,8 @@ Forward(r) ==
            [] r.member = "method" -> [inv |-> 1, status |-> 200, body |-> IF r.oneway THEN "any" ELSE "result"]
            [] r.member = "method_raises" -> IF r.oneway THEN [inv |-> 1, status |-> 200, body |-> "any"]
                                             ELSE [inv |-> 1, status |-> 500, body |-> "exception"]
+           [] r.member = "method_slow" -> IF r.oneway THEN [inv |-> 1, status |-> 200, body |-> "any"]
+                                          ELSE [inv |-> 1, status |-> 500, body |-> "error"]       \* once, never again
            [] r.member = "attribute" -> [inv |-> 1, status |-> 200, body |-> IF r.oneway THEN "any" ELSE "result"]
 
 VARIABLE r
@@ -77,5 +80,5 @@ OnlyAuthorised == (TrafficAllowed(r) /\ Decide(r) # "index") =>
                      /\ r.meth \in {"GET", "POST"} /\ r.path \in {"call", "extra_seg"}
 \* something runs behind the gateway only for a registered object's existing public member
 InvokesOnlyNamed == (Decide(r) \in {"forward", "denied_or_forward"} /\ Forward(r).inv = 1) =>
-                        Registered(r.name) /\ r.member \in {"method", "method_raises", "attribute"}
+                        Registered(r.name) /\ r.member \in {"method", "method_raises", "attribute", "method_slow"}
 =============================================================================
